@@ -137,7 +137,11 @@ def normalisers(ctx, fn, mode, cls, ch):
     try:
         r = f(x, mode=mode)
         raised = False
-    except ValueError:
+    except ValueError as e:
+        # only the documented refusal counts; any other ValueError (e.g. a numpy routine that cannot take the engine's
+        # symbolic arrays) goes to the engine's crash triage: violation iff it also raises natively, otherwise an engine gap
+        if 'scale factor' not in str(e):
+            raise
         raised = True
     if mode == 'all':
         is_zero = bool(s2 == 0)
